@@ -111,12 +111,14 @@ func (s *fakeSource) Close() error {
 }
 
 // feed offers the events one by one, pacing them randomly
-func (s *fakeSource) feed(pause func(*rand.Rand)) {
+func (s *fakeSource) feed(pause func(*rand.Rand), giveup <-chan struct{}) {
 	for range s.evs {
 		pause(s.rng)
 		select {
 		case s.ready <- struct{}{}:
 		case <-s.done:
+			return
+		case <-giveup: // the consumer left without closing the source
 			return
 		}
 	}
@@ -224,9 +226,10 @@ func runHistory(idx int, seed int64) History {
 		}(g)
 	}
 	var fwg sync.WaitGroup
+	giveup := make(chan struct{})
 	for _, s := range srcs {
 		fwg.Add(1)
-		go func(s *fakeSource) { defer fwg.Done(); s.feed(pause) }(s)
+		go func(s *fakeSource) { defer fwg.Done(); s.feed(pause, giveup) }(s)
 	}
 	// cancel either at a random instant or after everything has been delivered
 	if rng.Intn(2) == 0 {
@@ -239,15 +242,16 @@ func runHistory(idx int, seed int64) History {
 	rec.tick(Rec{Tag: "C"})
 	cancel()
 	wg.Wait()
+	timer := time.AfterFunc(2*time.Second, func() { close(giveup) }) // no goroutine until it fires
 	fwg.Wait()
-	deadline := time.After(2 * time.Second)
 	for c, s := range srcs {
 		select {
 		case <-s.closed:
-		case <-deadline:
+		case <-giveup:
 			h.Unclosed = append(h.Unclosed, c)
 		}
 	}
+	timer.Stop()
 	// the consumer goroutines must be gone
 	for i := 0; i < 200 && runtime.NumGoroutine() > base; i++ {
 		time.Sleep(time.Millisecond)
@@ -313,7 +317,12 @@ func runStress(seed int64, millis int) {
 	close(stop)
 	wg.Wait()
 	cancel()
-	<-s.closed
+	select {
+	case <-s.closed:
+	case <-time.After(5 * time.Second):
+		fmt.Fprintln(os.Stderr, "UNCLOSED: the source was not closed within 5 s after cancel")
+		os.Exit(3)
+	}
 	s.rec.mu.Lock() // keep the recorder small
 	s.rec.recs = nil
 	s.rec.mu.Unlock()
@@ -489,7 +498,7 @@ func main() {
 			cls := "crash"
 			line := ""
 			for _, l := range strings.Split(stderr, "\n") {
-				if strings.HasPrefix(l, "fatal error:") || strings.HasPrefix(l, "panic:") {
+				if strings.HasPrefix(l, "fatal error:") || strings.HasPrefix(l, "panic:") || strings.HasPrefix(l, "UNCLOSED:") {
 					line = l
 					break
 				}
